@@ -601,6 +601,16 @@ namespace Pistache::Http
             return buffer.feed(data, len);
         }
 
+        size_t ParserBase::room() const
+        {
+            return buffer.room();
+        }
+
+        std::string ParserBase::unparsed() const
+        {
+            return std::string(cursor.offset(), cursor.remaining());
+        }
+
         void ParserBase::reset()
         {
             buffer.reset();
@@ -1150,66 +1160,85 @@ namespace Pistache::Http
         static constexpr const char* RefusedData = "__Refused";
         if (peer->tryGetData(RefusedData))
             return;
-        bool complete = false;
-        auto refused  = [&] {
-            if (!complete)
-                peer->putData(RefusedData, std::make_shared<bool>(true));
-        };
-
         auto parser   = getParser(peer);
         auto& request = parser->request;
-        try
+
+        // A read can hold the end of one request and the beginning of the next ones (a client
+        // that pipelines): what follows a complete request is served from a parser that has
+        // been reset, as the first bytes of a new request would be.
+        std::string rest;
+        do
         {
-            if (!parser->feed(buffer, len))
-            {
-                parser->reset();
-                throw HttpError(Code::Request_Entity_Too_Large,
-                                "Request exceeded maximum buffer size");
-            }
+            std::string next;
+            bool complete = false;
+            auto refused  = [&] {
+                if (!complete)
+                    peer->putData(RefusedData, std::make_shared<bool>(true));
+            };
 
-            auto state = parser->parse();
-
-            if (state == Private::State::Done)
+            try
             {
-                complete = true;
-                ResponseWriter response(request.version(), transport(), this, peer);
+                // no more of the read is taken than the size limit leaves room for: the
+                // request may end within that, what follows it does not count for its size
+                const size_t take = std::min(len, parser->room());
+                parser->feed(buffer, take);
+
+                auto state = parser->parse();
+
+                if (state != Private::State::Done && take < len)
+                {
+                    parser->reset();
+                    throw HttpError(Code::Request_Entity_Too_Large,
+                                    "Request exceeded maximum buffer size");
+                }
+
+                if (state == Private::State::Done)
+                {
+                    complete = true;
+                    ResponseWriter response(request.version(), transport(), this, peer);
 
 #ifdef LIBSTDCPP_SMARTPTR_LOCK_FIXME
-                request.associatePeer(peer);
+                    request.associatePeer(peer);
 #endif
 
-                request.copyAddress(peer->address());
+                    request.copyAddress(peer->address());
 
-                auto connection = request.headers().tryGet<Header::Connection>();
+                    auto connection = request.headers().tryGet<Header::Connection>();
 
-                if (connection)
-                {
-                    response.headers().add<Header::Connection>(connection->control());
+                    if (connection)
+                    {
+                        response.headers().add<Header::Connection>(connection->control());
+                    }
+                    else
+                    {
+                        response.headers().add<Header::Connection>(ConnectionControl::Close);
+                    }
+
+                    next = parser->unparsed();
+                    next.append(buffer + take, len - take);
+                    onRequest(request, std::move(response));
+                    parser->reset();
                 }
-                else
-                {
-                    response.headers().add<Header::Connection>(ConnectionControl::Close);
-                }
-
-                onRequest(request, std::move(response));
-                parser->reset();
             }
-        }
-        catch (const HttpError& err)
-        {
-            ResponseWriter response(request.version(), transport(), this, peer);
-            response.send(static_cast<Code>(err.code()), err.reason());
-            parser->reset();
-            refused();
-        }
+            catch (const HttpError& err)
+            {
+                ResponseWriter response(request.version(), transport(), this, peer);
+                response.send(static_cast<Code>(err.code()), err.reason());
+                parser->reset();
+                refused();
+            }
 
-        catch (const std::exception& e)
-        {
-            ResponseWriter response(request.version(), transport(), this, peer);
-            response.send(Code::Internal_Server_Error, e.what());
-            parser->reset();
-            refused();
-        }
+            catch (const std::exception& e)
+            {
+                ResponseWriter response(request.version(), transport(), this, peer);
+                response.send(Code::Internal_Server_Error, e.what());
+                parser->reset();
+                refused();
+            }
+            rest   = std::move(next);
+            buffer = rest.data();
+            len    = rest.size();
+        } while (len > 0);
     }
 
     void Handler::onConnection(const std::shared_ptr<Tcp::Peer>& peer)
